@@ -309,7 +309,7 @@ func (s *Sim) execOp(i int) {
 	cfg := &s.sc.Cfg
 	var ctx context.Context
 	var cancel context.CancelFunc
-	if op.CtxTimeoutUs > 0 {
+	if op.CtxTimeoutUs > 0 && op.Kind != "muxserve" { // muxserve uses the field as its own park time
 		ctx, cancel = context.WithTimeout(context.Background(), time.Duration(op.CtxTimeoutUs)*time.Microsecond)
 	} else {
 		ctx, cancel = context.WithCancel(context.Background())
@@ -432,6 +432,8 @@ func (s *Sim) execOp(i int) {
 		}
 		b := s.baseFor(op.Cli)
 		err = rh.Retry(ctx, b)
+	case "muxserve":
+		s.muxServe(i, op)
 	case "stats":
 		if s.retry != nil {
 			stt := s.retry.Stats()
